@@ -138,7 +138,7 @@ def chainReload {ρ : Type} (eq : ρ → ρ → Bool) (next : Nat) (now : Int) (
     let old1 := withLasts ctls h.1                       -- what the reload sees
     let k := h.2.1.length
     let mid := reload eq next old1 rules
-    let rest := old1.drop k                              -- the request goes on over the slice it holds
+    let rest := ctls.drop k                              -- the request goes on over the slice it holds (not yet visited: untouched)
     let t := chain now1 (inp rest)
     (mid.map (Ctl.setLast ((rest.map (·.id)).zip t.1)), h.2.1 ++ t.2, true)
   | _, _ =>
